@@ -13,9 +13,11 @@ NOT_YET = "check not built yet in this session; no claim is made (see DESIGN.md 
 
 def main():
     checks, na = [], []
+    with open(os.path.join(VERIF, "harness", "ready.json")) as f:
+        ready = set(json.load(f))
     for pid in ALL:
         fn = os.path.join(VERIF, "harness", "props", pid.lower() + ".py")
-        if not os.path.exists(fn):
+        if pid not in ready or not os.path.exists(fn):
             na.append({"property_id": pid, "reason": NOT_YET})
             continue
         m = importlib.import_module("harness.props." + pid.lower())
